@@ -326,6 +326,11 @@ class Env:
                 self._fail("mismatch", label, f"cell {i}: got {a!r}, expected {b!r}")
                 return False
             (an, ad, av), (bn, bd, bv) = qa, qb
+            if core.is_const(an) and core.is_const(bn) and ad is None and bd is None:
+                # two concrete numbers (computed in floating point along different operation orders): equal up
+                # to rounding -- the reals model makes no claim about the last bits
+                if _close(float(av), float(bv), 1e-9, 1e-12):
+                    continue
             f = cmp("eq", core._mulq(an, bd), core._mulq(bn, ad))
             if f is core.TRUE:
                 continue
@@ -529,8 +534,9 @@ class EigStub:
                different in magnitude and non-zero ("well separated"), ascending for eigh/eigsh as documented;
     conc mode: calls the real solver, records argument and result."""
 
-    def __init__(self, E, psd=False, trace_gt=None):
+    def __init__(self, E, psd=False, trace_gt=None, exact2=False):
         self.E = E
+        self.exact2 = exact2
         self.psd = psd
         self.trace_gt = trace_gt
         self.calls = []  # dicts: kind, A (cells), k, w, V
@@ -541,8 +547,21 @@ class EigStub:
         m = n if k is None else int(k)
         c = len(self.calls)
         w = [E.real(f"ev{c}_{j}") for j in range(m)]
+        if k is None and m >= 1 and self.psd:
+            # a full decomposition preserves the trace: the last eigenvalue is *defined* as trace - (the others)
+            # (no equality constraint, so witnesses stay rational)
+            tr = 0.0
+            for i in range(n):
+                tr = tr + A[i, i]
+            rest = 0.0
+            for x in w[:-1]:
+                rest = rest + x
+            w[-1] = tr - rest
+            if not isinstance(w[-1], SymReal):
+                w[-1] = SymReal(core.rconst(core._frac(w[-1])), None, core._frac(w[-1]))
         for j in range(m):
-            E.assume(w[j] != 0)
+            if not self.psd:
+                E.assume(w[j] != 0)
             for i in range(j):
                 E.assume((w[i] != w[j]) & (w[i] != -w[j]))
         if kind in ("eigh", "eigsh"):
@@ -551,17 +570,13 @@ class EigStub:
         if self.psd:
             for j in range(m):
                 E.assume(w[j] >= 0)  # Gram matrices are positive semi-definite
-        if k is None:
-            # a full decomposition preserves the trace
-            tr = 0.0
-            for i in range(n):
-                tr = tr + A[i, i]
-            sw = 0.0
-            for x in w:
-                sw = sw + x
-            E.assume_eq(sw, tr)
+        if k is None and self.psd:
             if self.trace_gt is not None:
-                E.assume(sw > self.trace_gt)
+                E.assume(tr > self.trace_gt)
+            # ... and, on request, the determinant (n == 2): together with trace and order it determines the
+            # eigenvalues, so that a solver model carries the true spectrum of its matrix and replays
+            if self.exact2 and n == 2:
+                E.assume_eq(w[0] * w[1], A[0, 0] * A[1, 1] - A[0, 1] * A[1, 0])
         V = E.reals(f"evec{c}_", (n, m))
         return npenv.obj_array(w), V
 
@@ -570,7 +585,15 @@ class EigStub:
             Ad = A.toarray()
         else:
             Ad = A
-        if self.E.sym:
+        concrete = not any(core.is_sym(v) and not (isinstance(v, SymReal) and v.is_constant()) for v in np.asarray(Ad, dtype=object).ravel().tolist())
+        if self.E.sym and concrete:
+            # a concrete matrix: the real solver answers (its result is re-wrapped for the symbolic world)
+            Af = np.array([[float(core.sym_value(v)) for v in row] for row in np.asarray(Ad, dtype=object).tolist()], dtype=float)
+            w, V = real_fn(Af, k, **kw) if k is not None else real_fn(Af, **kw)
+            if np.iscomplexobj(w) and np.all(np.imag(w) == 0) and np.all(np.imag(V) == 0):
+                w, V = np.real(w), np.real(V)
+            w, V = npenv.obj_array(np.asarray(w, dtype=float)), npenv.obj_array(np.asarray(V, dtype=float))
+        elif self.E.sym:
             w, V = self._fresh(kind, Ad, k)
         else:
             w, V = real_fn(A, k, **kw) if k is not None else real_fn(A, **kw)
@@ -593,12 +616,12 @@ class EigStub:
 
 
 @contextlib.contextmanager
-def eig(E, psd=False, trace_gt=None):
+def eig(E, psd=False, trace_gt=None, exact2=False):
     """install the eigen-solver stub into the pyttb modules (sym) / wrap the real solvers (conc)"""
     import scipy.linalg
     import scipy.sparse.linalg
     import types
-    stub = EigStub(E, psd, trace_gt)
+    stub = EigStub(E, psd, trace_gt, exact2)
     real = dict(eigh=scipy.linalg.eigh, eig=scipy.linalg.eig, eigsh=scipy.sparse.linalg.eigsh, eigs=scipy.sparse.linalg.eigs)
     fake = types.SimpleNamespace(
         linalg=types.SimpleNamespace(eigh=lambda A, **kw: stub._call("eigh", real["eigh"], A, **kw),
